@@ -37,10 +37,16 @@ char* ir_t_write_fits_mem(char* t, char* size); uint32_t ir_t_read_fits_mem(char
 void ir_t_default_construct(char* t); void ir_t_destroy(char* t); uint32_t ir_t_equal(char* a, char* b); char* ir_t_get_aux_value(char* t, char* key);
 uint32_t ir_t_read_key_int(char* t, char* key, char* out); uint32_t ir_t_write_key_int(char* t, char* key, uint32_t v); void ir_t_permute(char* t, char* p, uint64_t n); void ir_t_convolve(char* t, uint32_t dim, char* knots, uint64_t n);
 uint32_t ir_t_searchcenters(char*, char*, char*); vr64 ir_t_eval(char*, char*, char*, uint32_t); void ir_t_gradient(char*, char*, char*, char*);
+// C19: table with a counting allocator
+void ir_e_construct(char* t, char* path); void ir_e_convolve(char* t, uint32_t dim, char* knots, uint64_t n); void ir_e_destroy(char* t); uint64_t ir_e_estimate(char* path, uint32_t nconv, uint32_t dim); uint64_t ir_e_sizeof(void);
+uint64_t tab_cur, tab_peak, tab_errors; int tab_live;
+static struct { void* p; uint64_t n; } tab_blk[512];
+void* ir_vm_tab_alloc(uint64_t n){ void* p = malloc(n ? n : 1); for (int i = 0; i < 512; i++) if (!tab_blk[i].p) { tab_blk[i].p = p; tab_blk[i].n = n; break; } tab_live++; tab_cur += n; if (tab_cur > tab_peak) tab_peak = tab_cur; return p; }
+void ir_vm_tab_free(char* p, uint64_t n){ if (!p) return; for (int i = 0; i < 512; i++) if (tab_blk[i].p == p) { if (tab_blk[i].n != n) tab_errors++; tab_cur -= tab_blk[i].n; tab_blk[i].p = 0; tab_live--; free(p); return; } tab_errors++; }
 uint64_t vm_format_double(vr64 v, char* buf){ (void)v; buf[0] = '1'; return 1; }
 int vm_parse_double(const char* t, uint64_t n, vr64* out){ (void)t; (void)n; *out = 0; return 0; }
 }
-struct Shape { unsigned nd; std::vector<unsigned> order; std::vector<uint64_t> nk; std::vector<std::pair<std::string, std::string>> aux; std::string scen; };
+struct Shape { unsigned nconv = 0, cdim = 0; unsigned nd; std::vector<unsigned> order; std::vector<uint64_t> nk; std::vector<std::pair<std::string, std::string>> aux; std::string scen; };
 static void eqi(const std::string& l, long a, long b){ vs_prove_eq(vs_q(a, 1), vs_q(b, 1), l.c_str()); }
 static void eqh(const std::string& l, vr64 a, vr64 b){ vs_prove_eq(a, b, l.c_str()); }
 static std::string rtrim(std::string s){ while (!s.empty() && s.back() == ' ') s.pop_back(); return s; }
@@ -88,11 +94,11 @@ int main(int argc, char** argv){
   if (argc < 3) return 2;
   std::ifstream in(argv[1]); vs_open(argv[2]); std::vector<std::string> lines; std::string line; while (std::getline(in, line)) lines.push_back(line); int ncase = 0, nerr = 0;
   for (size_t li = 0; li < lines.size(); li++) { std::istringstream ls(lines[li]); std::string w; if (!(ls >> w) || w != "cinter") continue;
-    Shape s; std::string id, tok; ls >> id; while (ls >> tok) { if (tok == "nd") ls >> s.nd; else if (tok == "scen") ls >> s.scen; }
+    Shape s; std::string id, tok; ls >> id; while (ls >> tok) { if (tok == "nd") ls >> s.nd; else if (tok == "scen") ls >> s.scen; else if (tok == "nconv") ls >> s.nconv; else if (tok == "cdim") ls >> s.cdim; }
     s.order.resize(s.nd); s.nk.resize(s.nd);
     for (li++; li < lines.size() && lines[li] != "end"; li++) { std::istringstream ds(lines[li]); std::string k; ds >> k; if (k == "dim") { unsigned d; std::string a; ds >> d >> a >> s.order[d] >> a >> s.nk[d]; }
       else if (k == "aux") { std::string kv; ds >> kv; size_t bar = kv.find('|'); std::string key = kv.substr(0, bar), val = kv.substr(bar + 1); for (auto& c : val) if (c == '~') c = ' '; s.aux.push_back({key, val}); } }
-    bool realmode = s.scen == "ops" || s.scen == "opsfail";      // convolution sorts computed knots: exact reals, concrete rational knots
+    bool realmode = s.scen == "ops" || s.scen == "opsfail" || s.scen == "estimate";      // convolution sorts computed knots: exact reals, concrete rational knots
     ncase++; vs_reset(realmode ? 0 : 1); vs_note("case", id.c_str()); exc_pending = 0; reset_files(); vm_fail_at = -1;
     if (setjmp(vs_jmp)) { nerr++; continue; }
     ps_table t; build(t, s, "", realmode);
@@ -176,6 +182,18 @@ int main(int argc, char** argv){
       ir_t_gradient((char*)&t, (char*)x.data(), (char*)tcen.data(), (char*)tgrad.data()); bool thr = exc_pending; exc_pending = 0;
       ir_ndsplineeval_gradient((char*)&h, (char*)x.data(), (char*)cen.data(), (char*)grad.data()); bool esc = escaped(id + " ndsplineeval_gradient (" + std::to_string(s.nd) + "-D table" + (thr ? ", the member function throws" : "") + ")");
       if (!thr && !esc) for (unsigned d = 0; d <= s.nd; d++) eqh(id + " ndsplineeval_gradient lane", grad[d], tgrad[d]);
+    } else if (sc == "estimate") {
+      // C19: bytes simultaneously requested from the table's allocator while loading (and convolving as declared) vs estimateMemory
+      char path[] = "t.fits"; ir_t_write_fits((char*)&t, path); if (exc_pending) vs_error("twin write_fits threw");
+      uint64_t est = ir_e_estimate(path, s.nconv ? s.nconv : 1, s.cdim); if (exc_pending) vs_error("estimateMemory threw");
+      tab_cur = tab_peak = tab_errors = 0; tab_live = 0; memset(tab_blk, 0, sizeof tab_blk);
+      ps_table ct; memset(&ct, 0, sizeof ct); ir_e_construct((char*)&ct, path); if (exc_pending) vs_error("construction from the file threw");
+      uint64_t load_peak = tab_peak;
+      if (s.nconv) { std::vector<vr64> kk(s.nconv); for (unsigned i = 0; i < s.nconv; i++) kk[i] = vs_q((long)i - 1, 2); ir_e_convolve((char*)&ct, s.cdim, (char*)kk.data(), s.nconv); if (exc_pending) vs_error("convolve threw"); }
+      char note[200]; snprintf(note, sizeof note, "estimate=%llu load_peak=%llu peak=%llu final=%llu object=%llu", (unsigned long long)est, (unsigned long long)load_peak, (unsigned long long)tab_peak, (unsigned long long)tab_cur, (unsigned long long)ir_e_sizeof()); vs_note("memory", note);
+      eqi(id + " bytes requested while loading <= estimateMemory (" + note + ")", load_peak <= est, 1);
+      eqi(id + " bytes requested while loading and convolving <= estimateMemory (" + note + ")", tab_peak <= est, 1);
+      ir_e_destroy((char*)&ct); /* deallocate() sizes that differ from the requested ones (auxiliary values read with quotes) are C20's subject */ eqi(id + " allocator balance after destruction", tab_cur, 0); eqi(id + " no block left", tab_live, 0);
     } else vs_error("unknown scenario");
   }
   printf("E2 cases=%d errors=%d\n", ncase, nerr); return 0;
